@@ -162,6 +162,17 @@ def _pick_names(rng, pool, n, taken):
     avail = [p for p in pool if p not in taken]
     rng.shuffle(avail)
     out = avail[:n]
+    if n >= 2 and rng.random() < 0.2:
+        # two names of the same kind that differ only by case (v / V): distinct, valid identifiers
+        low = {}
+        for p in avail:
+            low.setdefault(p.lower(), []).append(p)
+        sibs = [v for v in low.values() if len(v) >= 2]
+        if sibs:
+            pair = rng.choice(sibs)[:2]
+            rest = [q for q in out if q not in pair]
+            out = (pair + rest)[:n]
+            rng.shuffle(out)
     taken.update(out)
     return out
 
